@@ -85,6 +85,16 @@ pub fn expr(e: &Expr) -> Value {
     match e {
         Expr::Lit(l) => json!({"t": "lit", "info": info(e), "lit": lit(&l.lit)}),
         Expr::Group(g) => json!({"t": "group", "info": info(e), "e": expr(&g.expr)}),
+        // `- <int or float literal>`: the form syn gives `name = -1` when another item follows
+        Expr::Unary(syn::ExprUnary { op: syn::UnOp::Neg(_), expr: inner, attrs, .. })
+            if attrs.is_empty()
+                && matches!(**inner, Expr::Lit(syn::ExprLit { lit: Lit::Int(_) | Lit::Float(_), .. })) =>
+        {
+            match syn::parse2::<Lit>(e.to_token_stream()) {
+                Ok(l) => json!({"t": "neg", "info": info(e), "lit": lit(&l)}),
+                Err(_) => json!({"t": "other", "info": info(e), "kind": "unary"}),
+            }
+        }
         Expr::Path(p) if p.qself.is_none() && p.attrs.is_empty() => {
             json!({"t": "path", "info": info(e), "path": path(&p.path)})
         }
